@@ -44,7 +44,7 @@ func init() {
 }
 
 // the lexer-class alphabet of DESIGN.md section 5 group A
-var alphabet = []string{"a", "task", "_", "é", "日", "1", " ", "\t", "\n", "\r\n", " ", "#", "\"", "(", ")", "{", "}", ",", ":=", "->", "{{", "}}", ".", "$", "\xff", ";", "\r"}
+var alphabet = []string{"a", "task", "_", "é", "日", "1", " ", "\t", "\n", "\r\n", " ", "#", "\"", "(", ")", "{", "}", ",", ":=", "->", "{{", "}}", ".", "$", "\xff", ";", "\r", "-", "%"}
 
 // further symbols, used where the number of combinations allows (strings of length <= 2 at top level and inside the contexts, mutations):
 // a byte order mark, Unicode spaces outside Latin-1, NEL, letters whose last UTF-8 byte is 0x85 / 0xA0, and those two bytes on their own
